@@ -133,11 +133,11 @@ def check_one(chk, rep, repo, cls, eff):
                f"k is '{show(sc0.slot)[:100]}': it reads the prediction subgraph / the arguments, so the same sample is "
                "classified with another k in a batch of another size", line=sc0.per.line)
     scratch = {}
-    for ev in w.events:
+    for ev in wk.events:
         if ev.kind == "store" and per.lid in ev.loops:
             r = root_object(ev.target)
             if r[0] == "alloc":
-                alloc_ev = [e for e in w.events if e.kind == "call" and e.value == r]
+                alloc_ev = [e for e in wk.events if e.kind == "call" and e.value == r]
                 if alloc_ev and per.lid not in alloc_ev[0].loops:
                     scratch.setdefault(r, ev)
     covered = set()
